@@ -215,6 +215,8 @@ where
 
     // Keep on running forever until we receive the instruction to stop.
     while keep_running {
+        #[cfg(clockbound_verif)]
+        { if crate::verif_fault::hit("writer.loop") { return; } }
         match ctx.mbox.recv() {
             Ok(Message::ClockErrorBoundData((tracking, phc_error_bound, as_of))) => {
                 // TODO use phc_error_bound here
@@ -243,6 +245,8 @@ where
 /// Entry point to this thread.
 pub fn run(ctx: Context, max_drift_ppb: u32) {
     info!("Starting shared memory writer thread");
+    #[cfg(clockbound_verif)]
+    { if crate::verif_fault::hit("writer.start") { return; } }
     // Create a writer to update the clock error bound shared memory segment
     let writer = match ShmWriter::new(Path::new(CLOCKBOUND_SHM_DEFAULT_PATH)) {
         Ok(writer) => {
@@ -260,6 +264,8 @@ pub fn run(ctx: Context, max_drift_ppb: u32) {
 
     // Pack the writer into the updater structure.
     let updater = ShmUpdater::new(writer, max_drift_ppb);
+    #[cfg(clockbound_verif)]
+    { if crate::verif_fault::hit("writer.ready") { return; } }
     process_messages(ctx, updater)
 }
 
@@ -462,5 +468,22 @@ mod t_shm_writer {
         );
         let ceb = storage.borrow_mut().pop_front().unwrap();
         assert_eq!(ceb, expected);
+    }
+}
+
+/// Verification-only access to this module's private items (built only with --cfg clockbound_verif).
+#[cfg(clockbound_verif)]
+pub mod verif {
+    use super::*;
+
+    /// The private bound extraction, status as its discriminant.
+    pub fn extract_bound(tracking: Tracking) -> (i64, u8) {
+        let (bound, status) = extract_bound_from_tracking(tracking);
+        (bound, status as u8)
+    }
+
+    /// Run the real message loop of the writer thread with a fresh updater around `writer`.
+    pub fn run_updater<W: ShmWrite>(ctx: Context, writer: W, max_drift_ppb: u32) {
+        process_messages(ctx, ShmUpdater::new(writer, max_drift_ppb))
     }
 }
